@@ -1,5 +1,7 @@
 import Mathlib.Data.List.Basic
 import Mathlib.Data.List.Nodup
+import Mathlib.Data.List.Perm.Basic
+import Np.Model.Sort
 /-! C18: two stable passes (secondary key first) sort lexicographically — the structure of `glexsort` -/
 namespace Np.Sort
 variable {τ : Type}
@@ -43,18 +45,105 @@ theorem not_both_orders (l : List τ) (hnd : l.Nodup) (a b : τ) (h1 : [a, b].Su
         -- a = x = b
         exact hndx.1 (List.singleton_sublist.1 h1')
 
+/-! ### the model's structural insertion sort: permutation, sortedness, stability -/
+
+theorem perm_insertBy (le : τ → τ → Bool) (x : τ) : ∀ l : List τ, (insertBy le x l).Perm (x :: l)
+  | [] => List.Perm.refl _
+  | y :: ys => by
+    simp only [insertBy]
+    split
+    · exact List.Perm.refl _
+    · exact ((perm_insertBy le x ys).cons y).trans (List.Perm.swap x y ys)
+
+theorem perm_isort (le : τ → τ → Bool) : ∀ l : List τ, (isort le l).Perm l
+  | [] => List.Perm.refl _
+  | x :: xs => (perm_insertBy le x (isort le xs)).trans ((perm_isort le xs).cons x)
+
+theorem mem_isort (le : τ → τ → Bool) (l : List τ) (a : τ) : a ∈ isort le l ↔ a ∈ l :=
+  (perm_isort le l).mem_iff
+
+theorem pairwise_insertBy (le : τ → τ → Bool) (t : ∀ a b c, le a b → le b c → le a c)
+    (tot : ∀ a b, le a b || le b a) (x : τ) :
+    ∀ l : List τ, l.Pairwise (fun a b => le a b = true) → (insertBy le x l).Pairwise (fun a b => le a b = true)
+  | [], _ => by simp [insertBy]
+  | y :: ys, h => by
+    simp only [insertBy]
+    rw [List.pairwise_cons] at h
+    split
+    · rename_i hxy
+      refine List.pairwise_cons.2 ⟨?_, List.pairwise_cons.2 h⟩
+      intro z hz
+      rcases List.mem_cons.1 hz with rfl | hz
+      · exact hxy
+      · exact t _ _ _ hxy (h.1 z hz)
+    · rename_i hxy
+      have hyx : le y x = true := by
+        have := tot x y
+        simp only [Bool.or_eq_true] at this
+        rcases this with h1 | h1
+        · exact absurd h1 hxy
+        · exact h1
+      refine List.pairwise_cons.2 ⟨?_, pairwise_insertBy le t tot x ys h.2⟩
+      intro z hz
+      rcases List.mem_cons.1 ((perm_insertBy le x ys).mem_iff.1 hz) with rfl | hz
+      · exact hyx
+      · exact h.1 z hz
+
+theorem pairwise_isort (le : τ → τ → Bool) (t : ∀ a b c, le a b → le b c → le a c)
+    (tot : ∀ a b, le a b || le b a) : ∀ l : List τ, (isort le l).Pairwise (fun a b => le a b = true)
+  | [] => List.Pairwise.nil
+  | x :: xs => pairwise_insertBy le t tot x _ (pairwise_isort le t tot xs)
+
+theorem sublist_insertBy (le : τ → τ → Bool) (x : τ) : ∀ l : List τ, l.Sublist (insertBy le x l)
+  | [] => by simp [insertBy]
+  | y :: ys => by
+    simp only [insertBy]
+    split
+    · exact List.Sublist.cons _ (List.Sublist.refl _)
+    · exact List.Sublist.cons_cons _ (sublist_insertBy le x ys)
+
+theorem cons_sublist_insertBy (le : τ → τ → Bool) (x : τ) :
+    ∀ (l c : List τ), c.Sublist l → (∀ a ∈ c, le x a = true) → (x :: c).Sublist (insertBy le x l)
+  | [], c, hc, _ => by
+    have : c = [] := List.eq_nil_of_sublist_nil hc
+    subst this; simp [insertBy]
+  | y :: ys, c, hc, hx => by
+    simp only [insertBy]
+    split
+    · exact List.Sublist.cons_cons _ hc
+    · rename_i hxy
+      cases hc with
+      | cons _ h => exact List.Sublist.cons _ (cons_sublist_insertBy le x ys c h hx)
+      | cons_cons _ h => exact absurd (hx y (by simp)) hxy
+
+/-- stability: a sorted sublist of the input is still a sublist of the output -/
+theorem sublist_isort (le : τ → τ → Bool) :
+    ∀ (l c : List τ), c.Pairwise (fun a b => le a b = true) → c.Sublist l → c.Sublist (isort le l)
+  | [], c, _, hc => by simpa [isort] using hc
+  | x :: xs, c, hr, hc => by
+    simp only [isort]
+    cases hc with
+    | cons _ h => exact (sublist_isort le xs c hr h).trans (sublist_insertBy le x _)
+    | cons_cons _ h =>
+      rw [List.pairwise_cons] at hr
+      exact cons_sublist_insertBy le x _ _ (sublist_isort le xs _ hr.2 h) hr.1
+
+theorem pair_sublist_isort (le : τ → τ → Bool) {a b : τ} {l : List τ} (hab : le a b = true)
+    (h : [a, b].Sublist l) : [a, b].Sublist (isort le l) :=
+  sublist_isort le l [a, b] (by simp [hab]) h
+
 /-- Sorting by the secondary key and then *stably* by the primary key sorts by (primary, secondary). -/
 theorem two_pass_sorted (l : List τ) (hnd : l.Nodup) (le1 le2 : τ → τ → Bool)
     (t1 : ∀ a b c, le1 a b → le1 b c → le1 a c) (tot1 : ∀ a b, le1 a b || le1 b a)
     (t2 : ∀ a b c, le2 a b → le2 b c → le2 a c) (tot2 : ∀ a b, le2 a b || le2 b a) :
-    ((l.mergeSort le2).mergeSort le1).Pairwise
+    (isort le1 (isort le2 l)).Pairwise
       (fun a b => le1 a b = true ∧ (le1 b a = true → le2 a b = true)) := by
-  set l1 := l.mergeSort le2 with hl1
-  set l2 := l1.mergeSort le1 with hl2
-  have hnd1 : l1.Nodup := (List.mergeSort_perm l le2).nodup_iff.2 hnd
-  have hnd2 : l2.Nodup := (List.mergeSort_perm l1 le1).nodup_iff.2 hnd1
-  have hs1 : l1.Pairwise (fun a b => le2 a b = true) := List.pairwise_mergeSort t2 tot2 l
-  have hs2 : l2.Pairwise (fun a b => le1 a b = true) := List.pairwise_mergeSort t1 tot1 l1
+  set l1 := isort le2 l with hl1
+  set l2 := isort le1 l1 with hl2
+  have hnd1 : l1.Nodup := (perm_isort le2 l).nodup_iff.2 hnd
+  have hnd2 : l2.Nodup := (perm_isort le1 l1).nodup_iff.2 hnd1
+  have hs1 : l1.Pairwise (fun a b => le2 a b = true) := pairwise_isort le2 t2 tot2 l
+  have hs2 : l2.Pairwise (fun a b => le1 a b = true) := pairwise_isort le1 t1 tot1 l1
   rw [List.pairwise_iff_forall_sublist] at hs1 hs2 ⊢
   intro a b hab
   refine ⟨hs2 hab, ?_⟩
@@ -66,10 +155,10 @@ theorem two_pass_sorted (l : List τ) (hnd : l.Nodup) (le1 le2 : τ → τ → B
     rintro rfl
     have : [a, a].Nodup := hnd2.sublist hab
     simp at this
-  have ha1 : a ∈ l1 := (List.mem_mergeSort).1 ha2
-  have hb1 : b ∈ l1 := (List.mem_mergeSort).1 hb2
+  have ha1 : a ∈ l1 := (mem_isort le1 l1 a).1 ha2
+  have hb1 : b ∈ l1 := (mem_isort le1 l1 b).1 hb2
   rcases pair_sublist_or l1 a b ha1 hb1 hne with h | h
   · exact hno (hs1 h)
-  · have : [b, a].Sublist l2 := List.pair_sublist_mergeSort t1 tot1 hba h
+  · have : [b, a].Sublist l2 := pair_sublist_isort le1 hba h
     exact not_both_orders l2 hnd2 a b hab this
 end Np.Sort
